@@ -21,6 +21,7 @@ VF_BUCKET(uint64_t, 4, 2, 8, float);
 VF_BUCKET(uint32_t, 1, 4095, 16, float);
 #endif
 #if VF_GROUP == 4
+VF_BUCKET_SWEEP(uint64_t, 1, 4095, 0, float);
 VF_BUCKET(uint16_t, 1, 100, 0, float);
 VF_BUCKET(uint8_t, 1, 128, 0, float);
 #endif
